@@ -156,6 +156,7 @@ func main() {
 		acc = append(acc, accesses(drv, []string{"LLRPDevice", "Driver"})...)
 		out["accesses"] = acc
 		out["readCmd"] = cmdSwitches(drv)
+		out["supervisor"] = supervisorFacts(drv)
 		enc := json.NewEncoder(os.Stdout)
 		enc.SetIndent("", " ")
 		if err := enc.Encode(out); err != nil {
